@@ -717,8 +717,10 @@ func (am *AllocatorManager) getOrCreateLocalTSOSuffix(dcLocation string) (int32,
 	localTSOSuffixKey := am.GetLocalTSOSuffixPath(dcLocation)
 	// The Local TSO suffix is determined by the joining order of this dc-location.
 	localTSOSuffixValue := strconv.FormatInt(int64(maxSuffix), 10)
-	txnResp, err := kv.NewSlowLogTxn(am.member.Client()).
-		If(clientv3.Compare(clientv3.CreateRevision(localTSOSuffixKey), "=", 0)).
+	// Only the owner of the leader record may assign a suffix: guard the write with the
+	// leader comparison instead of relying on the in-memory IsLeader() check alone.
+	txnResp, err := am.member.GetLeadership().
+		LeaderTxn(clientv3.Compare(clientv3.CreateRevision(localTSOSuffixKey), "=", 0)).
 		Then(clientv3.OpPut(localTSOSuffixKey, localTSOSuffixValue)).
 		Commit()
 	if err != nil {
